@@ -22,7 +22,6 @@ BUILD = "src/wal/runtime/builder.rs"
 UNIT = dict(
     name="c14_paths",
     props=["C14", "C13"],
-    implicit_props=["C14"],
     uses=["std::path::PathBuf"],
     prelude=["strings.rs", "str_ext.rs", "paths.rs"],
     model=["c14_model.rs"],
